@@ -41,9 +41,13 @@ def present(M, cls, how, rot):
             keys.reverse()
     if how == "points" and keys:
         return Points.from_coordinates({k: torch.tensor([[float(M[k])]], dtype=torch.float64) for k in keys})
-    if cls == "DUF":
-        return {k: torch.tensor([float(M[k])], dtype=torch.float64) for k in keys}
-    return {k: M[k] for k in keys}
+    out = {k: torch.tensor([float(M[k])], dtype=torch.float64) for k in keys} if cls == "DUF" else {k: M[k] for k in keys}
+    if how == "ddict":          # a mapping that FABRICATES values for absent keys (collections.defaultdict): absent optional parameters still
+        import collections      # take their declared defaults, and the caller's mapping gains no key
+        d = collections.defaultdict(lambda: (torch.tensor([777.0], dtype=torch.float64) if cls == "DUF" else 777))
+        d.update(out)
+        return d
+    return out
 
 
 def asdict(M):
@@ -65,7 +69,7 @@ def run_one(s):
         e = {"a": a, "w": op["w"], "M": asdict(op["M"]), "R": asdict(op.get("R", {})), "names": list(op.get("names", [])),
              "sig": op.get("sig") or [], "res": "ok", "recv": {}, "ret": 0, "recv2": {}, "ret2": 0, "res2": "none",
              "M_same": True, "fun_same": True, "excn": ""}
-        how = "points" if (n % 3 == 1) else "dict"
+        how = "points" if (n % 3 == 1) else ("ddict" if (n + s["tid"]) % 3 == 2 else "dict")
         if op["w"] > len(heap):
             # the generator's abstract heap does not model aliasing of re-wrapped defaults, so it may predict a
             # wrapper where the real code returned a value; such references are skipped
